@@ -58,7 +58,7 @@ NoErr == [haserr |-> FALSE, reason |-> "", code |-> 0, temp |-> FALSE, esc |-> "
 
 (* shapes of a reply text that BEGINS with an enhanced status code: followed by text, on every line of a multi-line *)
 (* reply, alone ("550 5.5.1"), alone on the first line of a multi-line reply                                        *)
-LeadShapes == {"lead", "multi", "terse", "multiterse"}
+LeadShapes == {"lead", "multi", "terse", "multiterse", "xlead"}   \* xlead: the enhanced code is of the OTHER class than the reply code ("550 4.5.1 ...")
 
 (* Reply codes of the n-th fault: cfg.cs rotates through the code space so that     *)
 (* boundary codes (400, 499, 500, 599) and, in the sweep configurations, every     *)
@@ -98,7 +98,7 @@ Lost(c) == c \in {"drop", "stall", "wfail", "xclose"}   \* the connection is unu
 ErrOf(reason, ch, k, rc) ==
   [haserr |-> TRUE, reason |-> reason, temp |-> ch.c = "t4",
    code |-> IF ch.c \in {"t4", "p5"} THEN CodeOf(ch.c, k) ELSE 0,   \* only 4yz / 5yz codes are reported
-   esc |-> IF "ENHANCEDSTATUSCODES" \in cl.ext /\ ch.sh \in LeadShapes THEN EscOf(ch.c, k) ELSE "",
+   esc |-> IF "ENHANCEDSTATUSCODES" \in cl.ext /\ ch.sh \in LeadShapes THEN EscOf(IF ch.sh = "xlead" THEN (IF ch.c = "t4" THEN "p5" ELSE "t4") ELSE ch.c, k) ELSE "",
    rcpts |-> rc]
 LocalErr(reason) == [NoErr EXCEPT !.haserr = TRUE, !.reason = reason]
 
@@ -114,7 +114,7 @@ ReplyEv(v, ch, k, caps, code) ==
     [] OTHER -> [ev |-> "reply",
                  code |-> IF ch.c = "ok" THEN code ELSE CodeOf(ch.c, k),
                  cls  |-> ch.c,
-                 esc  |-> IF ch.c \in {"t4", "p5"} /\ ch.sh \in LeadShapes THEN EscOf(ch.c, k) ELSE "",
+                 esc  |-> IF ch.c \in {"t4", "p5"} /\ ch.sh \in LeadShapes THEN EscOf(IF ch.sh = "xlead" THEN (IF ch.c = "t4" THEN "p5" ELSE "t4") ELSE ch.c, k) ELSE "",
                  caps |-> caps]
 
 (* debug log records (only when the scenario switches debug logging on):   *)
